@@ -292,4 +292,165 @@ func init() {
 				}
 			}
 		})
+	register("C14.R5", "value variables get identifier names and a declarable type: the name of a value's package-level variable is derived from the recorded type of its expression; a constructor whose provided type is not the expression's own type rejects an untyped nil expression (its type name \"untyped nil\" is not an identifier and `var x = nil` is not Go); where the provided type IS the expression's type, an untyped nil can never be demanded",
+		func(c *Ctx, r *R) {
+			n := 0
+			for _, name := range []string{"processValue", "processInterfaceValue"} {
+				fi := r.Need(c.Fn(c.W, name), name)
+				if fi == nil {
+					continue
+				}
+				fi.inspect(fi.Decl.Body, func(nd ast.Node) bool {
+					cl, ok := nd.(*ast.CompositeLit)
+					if !ok || !isNamed(fi.Info.TypeOf(cl), pathW, "Value") {
+						return true
+					}
+					n++
+					var outV, exprV ast.Expr
+					for _, el := range cl.Elts {
+						if kv, ok := el.(*ast.KeyValueExpr); ok {
+							switch kv.Key.(*ast.Ident).Name {
+							case "Out":
+								outV = kv.Value
+							case "expr":
+								exprV = kv.Value
+							}
+						}
+					}
+					if outV == nil || exprV == nil {
+						r.Bad(name+"/Value-fields", cl.Pos(), "Value literal without Out or expr")
+						return true
+					}
+					if tc := fi.isCall(fi.deref(outV), "go/types.Info.TypeOf"); tc != nil && fi.sameExpr(tc.Args[0], exprV) {
+						r.Ok(name+"/typed-expression", cl.Pos(), "the provided type is the expression's own recorded type: an untyped nil is provided as \"untyped nil\", which no parameter, field or result can demand, so it is never emitted")
+						return true
+					}
+					// a dominating rejection of UntypedNil on TypeOf(expr)
+					okG := false
+					for _, g := range fi.Guards(cl) {
+						if !g.Neg {
+							continue
+						}
+						mentionsNil, onExpr := false, false
+						ast.Inspect(g.Expr, func(x ast.Node) bool {
+							if se, ok := x.(*ast.SelectorExpr); ok && se.Sel.Name == "UntypedNil" {
+								mentionsNil = true
+							}
+							if e, ok := x.(ast.Expr); ok {
+								if tc := fi.isCall(fi.deref(e), "go/types.Info.TypeOf"); tc != nil && fi.sameExpr(tc.Args[0], exprV) {
+									onExpr = true
+								}
+								src := fi.deref(e)
+								if d := fi.defOf(e); d != nil && d.idx == 0 && d.rhs != nil {
+									src = d.rhs // v, ok := x.(T)
+								}
+								if ta, ok := ast.Unparen(src).(*ast.TypeAssertExpr); ok {
+									if tc := fi.isCall(fi.deref(ta.X), "go/types.Info.TypeOf"); tc != nil && fi.sameExpr(tc.Args[0], exprV) {
+										onExpr = true
+									}
+								}
+							}
+							return true
+						})
+						if mentionsNil && onExpr {
+							okG = true
+						}
+					}
+					r.Check(okG, name+"/rejects-untyped-nil", cl.Pos(), "the expression's type differs from the provided type, so an untyped nil expression must be rejected before the Value is built")
+					return true
+				})
+			}
+			r.Floor("Value constructors", n, 2)
+			// the name is seeded with the expression's recorded type
+			if fi := r.Need(c.Fn(c.W, "gen.inject"), "gen.inject"); fi != nil {
+				ok := false
+				for _, cl := range fi.callsTo(pathW + ".typeVariableName") {
+					if tc := fi.isCall(fi.deref(cl.Args[0]), "go/types.Info.TypeOf"); tc != nil {
+						if f := fi.selField(tc.Args[0]); f != nil && f.Name() == "valueExpr" {
+							ok = true
+						}
+					}
+				}
+				r.Check(ok, "inject/value-name-from-expression-type", fi.Decl.Pos(), "a value variable's name is derived from TypeOf(the value expression)")
+			}
+		})
+	register("C19.R6", "show's groups own their input sets: in gather, a set of required inputs stored in a group is a map allocated for that group; no local aliases a stored group's set and a stored set is never mutated — so a provider joins a group only when its requirements equal the group's",
+		func(c *Ctx, r *R) {
+			fi := r.Need(c.Fn(c.Cmd, "gather"), "gather")
+			if fi == nil {
+				return
+			}
+			isTM := func(t types.Type) bool {
+				return t != nil && types.TypeString(t, nil) == "*golang.org/x/tools/go/types/typeutil.Map"
+			}
+			fresh := func(e ast.Expr) bool {
+				e = ast.Unparen(e)
+				if nw := fi.isBuiltin(e, "new"); nw != nil {
+					return true
+				}
+				if u, ok := e.(*ast.UnaryExpr); ok && u.Op == token.AND {
+					_, isLit := u.X.(*ast.CompositeLit)
+					return isLit
+				}
+				return false
+			}
+			// every local of map type: all definitions allocate
+			locals := 0
+			seen := map[*types.Var]bool{}
+			fi.inspect(fi.Decl.Body, func(nd ast.Node) bool {
+				id, ok := nd.(*ast.Ident)
+				if !ok {
+					return true
+				}
+				v, ok := fi.Info.Defs[id].(*types.Var)
+				if !ok || !isTM(v.Type()) || seen[v] {
+					return true
+				}
+				seen[v] = true
+				locals++
+				okF := len(fi.defs[v]) > 0
+				for _, d := range fi.defs[v] {
+					if d.rhs == nil || d.idx > 0 || !fresh(d.rhs) {
+						okF = false
+					}
+				}
+				r.Check(okF, "gather/fresh:"+v.Name()+"#"+itoa(locals), id.Pos(), "%s is only ever bound to a newly allocated map (never to a set already stored in a group)", v.Name())
+				return true
+			})
+			r.Floor("type-set locals", locals, 6)
+			// stored sets are read-only: mutators are applied to locals only
+			muts := 0
+			for _, cl := range fi.callsDeep(fi.Decl.Body) {
+				var target ast.Expr
+				switch n := fi.calleeName(cl); {
+				case n == "golang.org/x/tools/go/types/typeutil.Map.Set" || n == "golang.org/x/tools/go/types/typeutil.Map.Delete" || n == "golang.org/x/tools/go/types/typeutil.Map.SetHasher":
+					target = recvOf(cl)
+				case n == pathCmd+".mergeTypeSets":
+					target = cl.Args[0]
+				default:
+					continue
+				}
+				muts++
+				if f := fi.selField(target); f != nil && f.Name() == "inputs" {
+					r.Bad("gather/stored-inputs-mutated", cl.Pos(), "a group's stored input set is modified in place: %s", exprShort(target))
+				}
+			}
+			r.Floor("set mutations examined", muts, 10)
+			// mergeTypeSets writes only its first argument
+			if mf := r.Need(c.Fn(c.Cmd, "mergeTypeSets"), "mergeTypeSets"); mf != nil {
+				okM := true
+				var p0 *types.Var
+				if ps := mf.Decl.Type.Params.List; len(ps) > 0 && len(ps[0].Names) > 0 {
+					p0, _ = mf.Info.Defs[ps[0].Names[0]].(*types.Var)
+				}
+				for _, cl := range mf.callsDeep(mf.Decl.Body) {
+					if n := mf.calleeName(cl); strings.HasSuffix(n, "typeutil.Map.Set") || strings.HasSuffix(n, "typeutil.Map.Delete") {
+						if mf.varOf(recvOf(cl)) != p0 {
+							okM = false
+						}
+					}
+				}
+				r.Check(okM && p0 != nil, "mergeTypeSets/writes-destination-only", mf.Decl.Pos(), "mergeTypeSets modifies only its first argument")
+			}
+		})
 }
